@@ -341,10 +341,19 @@ func c08run(env *core.Env, idx int) core.CaseResult {
 	}
 	kd, dd := fsx.Diff(msnap, fsnap)
 	same := mr.Err == fr.Err && mr.Data == fr.Data && kd == ""
-	if cs.Helper == "LstatOrStat" && target == "ln" && mr.Err == fr.Err && kd == "" {
-		// by contract LstatOrStat describes the link itself only where Lstat is offered; without it, it follows the link.
+	if cs.Helper == "LstatOrStat" && target == "ln" && kd == "" {
+		// by contract LstatOrStat describes the link itself only where Lstat is offered; without it, it follows the link
+		// (different data, or ErrNotExist when the link dangles). Compared only when the masked run did call Lstat.
 		// (The link is there for the fault enumeration below: a failing Lstat must not be papered over by Stat.)
-		same = true
+		calledLstat := false
+		for _, c := range mcalls {
+			if strings.Contains(c, "Lstat") {
+				calledLstat = true
+			}
+		}
+		if !calledLstat {
+			same = true
+		}
 	}
 	notImpl := mr.Err == "ErrNotImplemented"
 	if !same {
